@@ -9,6 +9,7 @@ import LekkerVerif.Core.Monitor
 import LekkerVerif.Core.HierSolve
 import LekkerVerif.Model.HierParams
 import LekkerVerif.Core.HierFlatten
+import LekkerVerif.Model.WiringNet
 /-! Driver ops.  Each op runs executable definitions of the model on the decoded request. -/
 open Lean
 
@@ -281,6 +282,41 @@ def opHFlatten (j : Json) : Json :=
       | .ok c => Json.mkObj (base ++ [("pins", toJson c.pins),
           ("T", Json.arr (c.pins.map fun x => Json.arr (c.pins.map fun y => gratToJson (c.sem x y)).toArray).toArray)])
 
+/-- op `wsolve`: a history of wiring calls through the wiring model (`Wiring.stepX`), and at every `["solve"]` the network the
+state denotes (`Wiring.denote`) through the elimination loop: `Solver.solve()` after an edit history, entirely in the model -/
+def opWSolve (j : Json) : Json :=
+  match (j.getObjVal? "comps").toOption >>= fun x => (fromJson? (α := Array CompJ) x).toOption, getArr j "ops" with
+  | some cj, some ops =>
+    match cj.toList.mapM mkComp with
+    | none => errJson "parse"
+    | some comps =>
+      let names : List (List Nat) := match j.getObjVal? "names" with
+        | .ok (.arr xs) => xs.toList.map fun x => (natsOf x).getD []
+        | _ => []
+      let expnames : List String := match (j.getObjVal? "expnames").toOption >>= fun x => (fromJson? (α := List String) x).toOption with
+        | some l => l
+        | none => []
+      let nameOf : Wiring.Pin → Nat := fun p => ((names.getD p.1 []).getD p.2 (1000000 + 1000 * p.1 + p.2))
+      let pinName : Wiring.Pin → String := fun p => match comps[p.1]? with
+        | some c => c.pins.getD p.2 "?"
+        | none => "?"
+      let expName : Nat → String := fun n => expnames.getD n "?"
+      let (_, outs) := ops.toList.foldl (fun (acc : Wiring.W × List Json) (op : Json) =>
+        match op with
+        | Json.arr #[Json.str "solve"] =>
+          let net : NetD GRat := Wiring.denote comps pinName expName acc.1
+          let n := net.comps.length
+          let r := match Solve.loopWith Solve.pySched n net.initial n with
+            | .error e => errJson (errName e)
+            | .ok total => Json.mkObj [("names", toJson (net.exposed.map (·.1))),
+                ("T", Json.arr (net.exposed.map fun e1 => Json.arr (net.exposed.map fun e2 => gratToJson (total.sem e1.2 e2.2)).toArray).toArray)]
+          (acc.1, acc.2 ++ [r])
+        | _ => match parseOpX op with
+          | none => (acc.1, acc.2 ++ [errJson "parse-op"])
+          | some o => ((Wiring.stepX nameOf acc.1 o).1, acc.2)) (Wiring.init (comps.map fun c => c.pins.length), [])
+      Json.mkObj [("solves", Json.arr outs.toArray)]
+  | _, _ => errJson "parse"
+
 /-- op `monsolve`: the monitor path of `Solver.solve` (`Monitor.solveMonitored` with the pin-count heuristic) -/
 def opMonSolve (j : Json) : Json :=
   match fromJson? (α := CaseJ) j with
@@ -319,6 +355,7 @@ def dispatch (j : Json) : Json :=
   | some "monsolve" => opMonSolve j
   | some "hsolve" => opHSolve j
   | some "hflatten" => opHFlatten j
+  | some "wsolve" => opWSolve j
   | some "phsolve" => opPHSolve j
   | some "phsweep" => opPHSweep j
   | some "stack" => opStack j
